@@ -159,7 +159,7 @@ Proof.
     assert (Hbl : blocked_sleep tk = Some s) by (unfold blocked_sleep; rewrite H5; reflexivity).
     pose proof (Hentry k tk s Hk Hbl eq_refl (fun F => F)) as Hin.
     assert (Hne : ents_at (deadline s) (pending (drv_of w (t_mod tk))) <> []) by (intros E; rewrite E in Hin; contradiction).
-    destruct (Hwake _ _ (ents_at_in _ _ Hne) Hne) as (w0 & Hw0 & _).
+    destruct (Hwake _ _ (ents_at_in _ _ Hne) Hne (base_blocked_fin _ _ _ _ _ _ _ Hbase Hk Hbl)) as (w0 & Hw0 & _).
     rewrite Hsp in Hperm. cbn in Hperm. apply Permutation_nil in Hperm. rewrite Hperm in Hw0. contradiction.
   - split; assumption.
 Qed.
